@@ -717,6 +717,18 @@ func (e *Enc) nilCheckV(fr *Frame, p Val, rb Term, pos token.Pos, src ssa.Value)
 	if fr.top != nil && fr.top.contract != nil && fr.top.contract.NoNilChecks {
 		if src != nil && e.signalResult(src) {
 			e.safety(fr, "safety.nilsignal", rb, "(not (= "+p.T+" 0))", pos)
+		} else if pt, ok := p.Typ.Underlying().(*types.Pointer); ok && src != nil {
+			// a pointer to a plain value (*time.Duration, *bool, *string ...) read from a field is the
+			// "optional setting" idiom of decoded configuration: nil means absent, so a dereference
+			// needs the nil test on its way (struct pointers carry construction invariants the sweep
+			// does not know and stay exempt)
+			if _, isStruct := pt.Elem().Underlying().(*types.Struct); !isStruct {
+				if u, ok := src.(*ssa.UnOp); ok && u.Op == token.MUL {
+					if _, ok := u.X.(*ssa.FieldAddr); ok {
+						e.safety(fr, "safety.nilopt", rb, "(not (= "+p.T+" 0))", pos)
+					}
+				}
+			}
 		}
 		return
 	}
